@@ -387,6 +387,29 @@ class C04(PokerProp):
 
 class C13(PokerProp):
     pid = "C13"
+
+    def impl(self, case):
+        rec, g = poker.run_ops(case)
+        if g is not None and case.get("again"):
+            # the same hand played again (and again) from the very deck and hands objects the first game was given: every
+            # action that was legal the first time is legal -- and works -- the next time
+            cur = g
+            for k in range(case["again"]):
+                rec2, g2 = poker.run_ops({**case, "ops": [o for o in case["ops"] if not o.get("probe")]}, shared_from=cur)
+                sig = lambda st: [st["r"]] + ([st["s"]["board"], st["s"]["deck"], st["s"]["stacks"], st["s"]["pay"]] if "s" in st else [])
+                first = [sig(st) for o, st in zip(case["ops"], rec["steps"]) if not o.get("probe")]
+                again = [sig(st) for st in rec2["steps"]]
+                if first != again or ("err" in rec2.get("ctor", {})):
+                    bad = next((i for i, (a, b) in enumerate(zip(first, again)) if a != b), min(len(first), len(again)))
+                    rec["again_diff"] = (f"game {k + 2} built from the same deck and hands objects: step {bad} gave "
+                                         f"{str(again[bad])[:200] if bad < len(again) else 'missing'} ({rec2['steps'][bad].get('e', '') if bad < len(again) else rec2.get('ctor')}), "
+                                         f"the first time {str(first[bad])[:200] if bad < len(first) else 'missing'}")
+                    break
+                if g2 is None:
+                    break
+                cur = g2
+        return rec
+
     small_scope = True
     title = "progress: a legal action always exists, legal actions never fail internally, hands terminate, complete shape"
     fields = ("complete", "street")
@@ -394,6 +417,12 @@ class C13(PokerProp):
     probes = 1
     rule = ("adversarial policies (min-raise wars, all-in storms, call-downs, 9 seats, rake 0.7/1.0 with caps, 3 run-outs, "
             "one-chip and empty stacks); every hand is played to completion; non-trivial = >= 2 accepted actions")
+
+    def judge(self, case, io, mo):
+        v = super().judge(case, io, mo)
+        if io.get("again_diff"):
+            return Verdict(v.agree, False, (io["again_diff"] + (" ;; " + v.why if v.why else ""))[:1500], v.key, v.tags)
+        return v
 
     def oracle(self, case, evs):
         why = []
@@ -445,7 +474,10 @@ class C13(PokerProp):
             case["f"] = core.ratj(rng.choice([0.7, 1.0])); case["cap"] = rng.choice([1, 5, 10**6])
             case["runouts"] = 3
         pol = rng.choice(["minraise", "allin", "caller", "checkcall", "random", "potty"])
-        return poker.play(rng, case, probes_per_state=self.probes, policy=pol)
+        case = poker.play(rng, case, probes_per_state=self.probes, policy=pol)
+        if rng.random() < 0.3:
+            case["again"] = rng.choice([1, 2, 4])
+        return case
 
 
 # ------------------------------------------------------------------------------------------------ C07
@@ -565,6 +597,7 @@ class C15(PokerProp):
         case["resets"] = rng.choice([1, 2, 3])
         # the action log is not among the serialisable fields the property lists: resume without it in part of the cases
         case["nolog"] = rng.random() < 0.4
+        case["share"] = rng.random() < 0.5
         # continuation: the remaining real actions, each preceded by two probes
         cont = []
         prng = random_mod.Random(rng.random())
@@ -594,6 +627,10 @@ class C15(PokerProp):
         try:
             fake = poker.FakeRandom(*case.get("samp", [0, 0])); poker.install_sampler(fake)
             kw = poker.cfg_kwargs(case)
+            if case.get("share"):
+                # "the same inputs": the very deck and hands objects the original game was built from (the engine only ever
+                # rebinds its deck and never writes to the hands, so a caller may keep and reuse them)
+                kw["deck"] = g._cv_kw["deck"]; kw["hands"] = g._cv_kw["hands"]
             g2 = cls.from_action_dicts(num_players=kw["num_players"], deck=kw["deck"], hands=kw["hands"],
                                        starting_stacks=kw["starting_stacks"], boards=kw["boards"], ante=kw["ante"],
                                        blinds=kw["blinds"], action_dicts=[dict(d) for d in log],
